@@ -19,6 +19,8 @@ the AST mirror (ser.Unsupported) are skipped and counted in SKIPPED.
 
 Set UNUSED_FRAGMENT=1 to turn every case into "does the model answer inside its fragment?": the reported
 mismatches are then exactly the OutOfFragment cases (used to measure the OutOfFragment share per family).
+With UNUSED_FRAGMENT=2 a case fails only if the model answers OutOfFragment on a program WITHOUT opaque
+statements, i.e. through the set-order guard of Mapper.__init__ (expected: never).
 """
 import logging
 import os
@@ -31,7 +33,7 @@ from .corr import Case
 from .inputs import parse, try_parse
 
 IMPORTS = ["Model.Traverse", "Model.Globals", "Model.Unused"]
-FRAGMENT_MODE = bool(os.environ.get("UNUSED_FRAGMENT"))
+FRAGMENT_MODE = os.environ.get("UNUSED_FRAGMENT", "")
 SKIPPED = defaultdict(int)
 MAX_TEXT = 40000
 
@@ -84,7 +86,10 @@ def conv_prog(r):
     return ser.prog(r), [str(s) for s in r]
 
 
-def case(chk, model, obs, desc, nontrivial):
+def case(chk, model, obs, desc, nontrivial, t=None):
+    if FRAGMENT_MODE == "2" and t is not None:
+        # OutOfFragment must be explained by an opaque statement (never by the Mapper set-order guard)
+        return Case(f"(in_fragment_b ({model}) || negb (prog_in_fragment {t}))", desc, nontrivial=nontrivial)
     if FRAGMENT_MODE:
         return Case(f"in_fragment_b ({model})", desc, nontrivial=nontrivial)
     return Case(f"{chk} ({model}) {obs}", desc, nontrivial=nontrivial)
@@ -352,7 +357,7 @@ class UnusedUsage:
                     yield case("chk_usage", f"analyze_usage_prg {preds(ins)} {preds(outs)} {t}", obs,
                                {"fn": "analyze_usage", "kind": kind, "anonymized": anonymize, "program": "\n".join(map(str, prg)),
                                 "inputs": [str(p) for p in ins], "outputs": [str(p) for p in outs], "observed": js},
-                               nontrivial=isinstance(js, str) or bool(js["used"]))
+                               nontrivial=isinstance(js, str) or bool(js["used"]), t=t)
 
 
 # ------------------------------------------------------------------------------------------------
@@ -410,7 +415,7 @@ class UnusedProject:
                            {"fn": "anonymize; analyze_usage; project_unused", "kind": kind, "program": "\n".join(before),
                             "ctor_program_empty": not ctor,
                             "inputs": [str(p) for p in ins], "outputs": [str(p) for p in outs], "observed": js},
-                           nontrivial=isinstance(js, str) or bool(js["state"]["new_names"]))
+                           nontrivial=isinstance(js, str) or bool(js["state"]["new_names"]), t=t)
             # ---- injected state, two calls on the same object
             prg = make()
             before = [str(s) for s in prg]
@@ -423,7 +428,7 @@ class UnusedProject:
                 yield case("chk_project", f"project_unused {st} {t}", obs,
                            {"fn": "project_unused (injected state)", "call": call, "kind": kind, "program": "\n".join(before),
                             "state_before": st, "observed": js},
-                           nontrivial=isinstance(js, str) or [str(s) for s in js["program"]] != before)
+                           nontrivial=isinstance(js, str) or [str(s) for s in js["program"]] != before, t=t)
 
 
 # ------------------------------------------------------------------------------------------------
@@ -502,7 +507,7 @@ class UnusedSingleCopies:
                 yield case("chk_rprog", f"remove_single_copies {preds(ins)} {preds(outs)} {t}", obs,
                            {"fn": "remove_single_copies", "kind": kind, "program": "\n".join(before),
                             "inputs": [str(p) for p in ins], "outputs": [str(p) for p in outs], "observed": js},
-                           nontrivial=js != before)
+                           nontrivial=js != before, t=t)
 
 
 # ------------------------------------------------------------------------------------------------
@@ -548,7 +553,7 @@ class UnusedExecuteCore:
                            {"fn": self.source, "kind": kind, "program": "\n".join(before), "source": text,
                             "ctor_program": [str(s) for s in ctor] if ctor is not prg else "same",
                             "inputs": [str(p) for p in ins], "outputs": [str(p) for p in outs], "observed": js},
-                           nontrivial=js != before)
+                           nontrivial=js != before, t=t)
 
 
 class UnusedExecute(UnusedExecuteCore):
